@@ -133,6 +133,13 @@ class FcdWorld(au.CutWorld):
             return Str(("suffix",))
         raise AnalysisError("slice with %s" % r.ty)
 
+    def skip_next(self, m, st, itref):
+        it = m.load(st, itref.loc) if isinstance(itref, Ref) else itref
+        n = it.data[1] if isinstance(it, Opq) and it.kind == "skip" else None
+        if isinstance(n, Sym) and n.name == ("pos",):
+            raise DisciplineError("the rest of the string is reached by skipping `pos` *characters* of the whole string, but `pos` is the *byte* offset returned by find: after a multi-byte character too many characters are skipped")
+        raise AnalysisError("iteration over %r" % (it,))
+
     def new_buf(self, st, content):
         if isinstance(content, Str) and content.tag == ("lit", ""):
             return Opq("buf", ("empty",))  # String::new / with_capacity: the prefix must be appended first
